@@ -23,13 +23,12 @@ def run():
         ck.violation('model:MCAes', 'AES layer model check failed', vlib.tlc_error_summary(r['out']))
     exe = vlib.build_harness('rx_aes')
     tr = os.path.join(vlib.WORK, 'c12.ndjson')
-    vlib.sh([exe, '--seed', str(ck.seed), '--tier', ck.tier, '--out', tr], timeout=600)
-    lines = [l for l in open(tr).read().splitlines() if l]
+    lines = vlib.run_harness([exe, '--seed', str(ck.seed), '--tier', ck.tier, '--out', tr], tr, timeout=600)
     res = vlib.validate_sharded('TraceAes', 'TraceAes.cfg', lines, 'c12', shards=16, timeout=3000, xmx='6g')
     ck.add_traces('TraceAes', res, 'soft/hard rounds, AesGenerator1R/4R, AesHash1R, combined step, T-tables, full-size chain links and soft/hard difference counts')
     ck.reject('TraceAes', res, key_of)
     kinds = {}
-    for l in lines:
+    for l in [x for x in lines if '"e": "Crash"' not in x]:
         e = l[6:l.index('"', 6)]
         kinds[e] = kinds.get(e, 0) + 1
     ck.cov['event_kinds'] = kinds
